@@ -730,15 +730,31 @@ impl<'a> Gen<'a> {
                 // are stable under encode/decode: escaped caret, colours (^8 also resets the codepage), escape letters
                 const PAIRS: [&str; 8] = ["^^", "^0", "^1", "^7", "^8", "^9", "^v", "^h"];
                 let mut s = String::new();
+                // `ub` bounds the encoded length of `s` from above: the encoder works left to right, so one more character
+                // adds at most a codepage marker and two bytes. The exact (and, under Miri, very expensive) length is only
+                // computed when the bound does not settle the question; the strings produced are the same either way.
+                let mut ub = 0usize;
                 loop {
                     let mut t = s.clone();
                     match r.below(12) {
-                        0 => t.push_str(PAIRS[r.usize_below(PAIRS.len())]),
-                        1..=4 => t.push((0x20 + r.below(0x3e) as u8) as char),
-                        _ => t.push(*r.pick(self.mixed_pool)),
+                        0 => {
+                            t.push_str(PAIRS[r.usize_below(PAIRS.len())]);
+                            ub += 2;
+                        },
+                        1..=4 => {
+                            t.push((0x20 + r.below(0x3e) as u8) as char);
+                            ub += 4;
+                        },
+                        _ => {
+                            t.push(*r.pick(self.mixed_pool));
+                            ub += 4;
+                        },
                     }
-                    if (self.enc_len)(&t) > target {
-                        break;
+                    if ub > target {
+                        ub = (self.enc_len)(&t);
+                        if ub > target {
+                            break;
+                        }
                     }
                     s = t;
                     if s.chars().count() > 300 {
